@@ -66,6 +66,7 @@ package drpcsignal
 //@   props C19
 //@   ensures [seen] result1 ==> sigES(s.status) && result0 == s.err
 //@   ensures [none] !result1 ==> result0 == nil
+//@   ensures [exact] result1 == sigES(s.status)
 
 //@ func (*Signal).IsSet
 //@   props C19
